@@ -333,6 +333,9 @@ func (c *Chaos) Generate() {
 			for j, nd := 0, 3+c.R.Intn(5); j < nd; j++ {
 				d[AddrHex(KeyDeleg0+i*10+j)] = uint32(1 + c.R.Intn(10))
 			}
+			if c.R.Intn(3) == 0 {
+				d[""] = uint32(1 + c.R.Intn(5)) // the empty string is accepted as a delegator address (it decodes to the empty address)
+			}
 			out := Addr(k)
 			if o, ok := c.outputOf[k]; ok {
 				out = Addr(o)
